@@ -15,6 +15,8 @@ func main() {
 	switch os.Args[1] {
 	case "dump":
 		dump(os.Args[2], os.Args[3])
+	case "ble":
+		translateBle(os.Args[2], os.Args[3])
 	default:
 		fmt.Fprintln(os.Stderr, "unknown subcommand")
 		os.Exit(2)
